@@ -1,6 +1,7 @@
 import MazeVerif.DriverOps.Util
 import MazeVerif.Model.Gen
 import MazeVerif.Model.WilsonProb
+import MazeVerif.Model.WilsonProbFast
 namespace MZ.Drv.C19
 open Lean MZ.Drv MZ.WStep MZ.WProb
 
@@ -36,8 +37,10 @@ def handle (op : String) (j : Json) : R Json := do
     | none => pure <| obj [("ok", false), ("arities", jNats ar), ("nested_ok", nested.isSome)]
   | "C19.law" =>
     -- exact law of the machine after n draws: finished masks with probabilities, unfinished mass, the spanning trees
+    -- ("fast": true iterates with `lawK`, the key-once merge the 2x5/5x2 tables evaluate; same masses, see `tableOKK_eq`)
     let rows ← getNat j "rows"; let cols ← getNat j "cols"; let n ← getNat j "n"
-    let d := law rows cols n
+    let fast := match j.getObjVal? "fast" with | .ok (Json.bool b) => b | _ => false
+    let d := if fast then lawK rows cols n else law rows cols n
     let span := allSpanningMasks rows cols
     let tt := span.map fun T => (T, massFin (wilson rows cols) (edgesAre T) d)
     let other := massFin (wilson rows cols) (fun s => !span.contains s.edges) d
